@@ -220,3 +220,67 @@ func fromStream(o *hlib.Out, r *hlib.Rng, cfgs []cfgIn, perDriver int) {
 		}
 	}
 }
+
+// ---------- From() and CheckSign of arbitrary presented transactions ----------
+
+// no honest signer behind the presented transaction: any crypto id (registered, "none", unknown), every
+// address id, the signer's key / no key / one byte / 65 random bytes, and no Signature at all.
+// From() is asked first, as mempool.checkTx does before the signature is checked.
+func emitFromAny(o *hlib.Out, kind string, cfgs []cfgIn, h int64, t1 *types.Transaction) {
+	f1, ok1 := safeFrom(t1)
+	_, dout := driverVerdict(t1)
+	chk := safeCheck(t1, h)
+	o.Emit(kind, true,
+		hlib.App("CFromAny", coqDrivers(), coqAddrIDs(), hlib.Z(h), coqTx(t1), hlib.N(uint64(dout)), hlib.N(uint64(chk)), optBytes(f1, ok1)),
+		map[string]interface{}{"op": "fromany", "cfgs": cfgs, "h": h, "t": toJ(t1)},
+		map[string]interface{}{"checksign": chk, "from1": string(f1), "from1_ok": ok1})
+}
+
+func fromAnyStream(o *hlib.Out, r *hlib.Rng, cfgs []cfgIn, perDriver int) {
+	emitFromAny(o, "fromany-nosig", cfgs, 1, signable(r))
+	for _, name := range signDrivers {
+		st := drvByName(name)
+		if st == nil || name == "sm2" { // a foreign / damaged key under sm2 may panic in the driver (finding 7, covered by verify-pub)
+			continue
+		}
+		for k := 0; k < perDriver; k++ {
+			t0, _ := signedBy(r, name, st.ID)
+			if t0 == nil {
+				continue
+			}
+			h := enabledHeight(st, r)
+			ids := []int32{st.ID, st.ID | 0x40000000, 12345}
+			if nd := drvByName("none"); nd != nil {
+				ids = append(ids, nd.ID)
+			}
+			for _, id := range ids {
+				if id != st.ID && k > 0 {
+					continue
+				}
+				for a := int32(0); a < 8; a++ {
+					pubs := [][]byte{t0.Signature.Pubkey, nil}
+					if k == 0 {
+						pubs = append(pubs, []byte{byte(r.Intn(256))}, r.Bytes(65))
+					}
+					for pi, pub := range pubs {
+						t1 := pclone(t0)
+						t1.Signature.Ty = id&^0x7000 | a<<12
+						t1.Signature.Pubkey = pub
+						kind := "fromany-key"
+						switch pi {
+						case 1:
+							kind = "fromany-nokey"
+						case 2, 3:
+							kind = "fromany-otherkey"
+						}
+						hh := h
+						if pi == 1 && a%2 == 1 {
+							hh = -1
+						}
+						emitFromAny(o, kind, cfgs, hh, t1)
+					}
+				}
+			}
+		}
+	}
+}
